@@ -53,6 +53,12 @@ def run_check(pid, tier, seed, replay=None):
     aud = core.audit_sources()
     if aud:
         problems.append(("audit", "; ".join(aud)))
+    coqchk = None
+    if tier == "thorough" and proof["ok"] and getattr(prop, "PROP_FILE", None):
+        # independent re-check of the compiled property file and everything it depends on; prints the axioms
+        coqchk = core.coqchk(prop.PROP_FILE)
+        if not coqchk["ok"]:
+            problems.append(("coqchk", coqchk["log"]))
 
     # 3. build model driver and implementation harness
     ok, msg = core.build_driver()
@@ -165,7 +171,8 @@ def run_check(pid, tier, seed, replay=None):
         "coverage": {
             "obligations": max(1, len(obligations)),
             "discharged": discharged,
-            "checker_cmd": f"make -C coq Properties/{getattr(prop, 'PROP_FILE', pid)}.vo (coqc 8.16.1, full .vo build) + Print Assumptions audit + forbidden-command grep",
+            "checker_cmd": f"make -C coq Properties/{getattr(prop, 'PROP_FILE', pid)}.vo (coqc 8.16.1, full .vo build) + Print Assumptions audit + forbidden-command grep"
+                           + (" + coqchk -o (" + coqchk["summary"][:300] + ")" if coqchk else ""),
             "trusted_base": TRUSTED_BASE,
             "theorems": obligations,
             "assumptions": {k: ("closed" if "Closed under the global context" in v else v[:200]) for k, v in proof.get("assumptions", {}).items()},
